@@ -332,12 +332,15 @@ class Fingerprint(object):
 
         new_fp = cls.from_indices(fp.indices, bits=fp.bits, level=fp.level)
         new_fp.update_props(fp.props)
-        new_fp.folded_fingerprint = dict(
-            [
-                (k, v.__class__.from_fingerprint(v))
-                for k, v in fp.folded_fingerprint.items()
-            ]
-        )
+        for k, v in fp.folded_fingerprint.items():
+            folded = v.__class__.from_fingerprint(v)
+            folded.unfolded_fingerprint = new_fp
+            if v.index_to_unfolded_index_dict is not None:
+                folded.index_to_unfolded_index_dict = dict(
+                    (i, set(s))
+                    for i, s in v.index_to_unfolded_index_dict.items()
+                )
+            new_fp.folded_fingerprint[k] = folded
         return new_fp
 
     @classmethod
@@ -1076,12 +1079,15 @@ class CountFingerprint(Fingerprint):
         counts = dict([(i, c) for i, c in fp.counts.items() if c > 0])
         new_fp = cls.from_counts(counts, bits=fp.bits, level=fp.level)
         new_fp.update_props(fp.props)
-        new_fp.folded_fingerprint = dict(
-            [
-                (k, v.__class__.from_fingerprint(v))
-                for k, v in fp.folded_fingerprint.items()
-            ]
-        )
+        for k, v in fp.folded_fingerprint.items():
+            folded = v.__class__.from_fingerprint(v)
+            folded.unfolded_fingerprint = new_fp
+            if v.index_to_unfolded_index_dict is not None:
+                folded.index_to_unfolded_index_dict = dict(
+                    (i, set(s))
+                    for i, s in v.index_to_unfolded_index_dict.items()
+                )
+            new_fp.folded_fingerprint[k] = folded
         return new_fp
 
     def reset(self, *args, **kwargs):
@@ -1264,6 +1270,7 @@ class CountFingerprint(Fingerprint):
 
     def __floordiv__(self, x):
         cf = CountFingerprint.from_fingerprint(self)
+        cf.folded_fingerprint = {}
         cf.counts = dict(
             [(k, int(v / x)) for k, v in self.counts.items() if v >= x]
         )
@@ -1273,6 +1280,7 @@ class CountFingerprint(Fingerprint):
     def __div__(self, x):
         x = float(x)
         cf = FloatFingerprint.from_fingerprint(self)
+        cf.folded_fingerprint = {}
         cf.counts = dict([(k, v / x) for k, v in self.counts.items()])
         return cf
 
@@ -1281,6 +1289,7 @@ class CountFingerprint(Fingerprint):
 
     def __mul__(self, x):
         cf = self.__class__.from_fingerprint(self)
+        cf.folded_fingerprint = {}
         cf.counts = dict([(k, v * float(x)) for k, v in self.counts.items()])
         return cf
 
